@@ -34,3 +34,13 @@ package registry
 //@   ensures [spec_kept] isStructPtr && hasStatusOf && hasSpecOf ==> gfield[obj]["Spec"] == old(gfield[old]["Spec"])
 //@   ensures [labels_kept] isStructPtr && hasStatusOf && hasMetaOf(obj) && hasMetaOf(old) ==> glabels[obj] == old(glabels[old])
 //@   ensures [status_submitted] gfield[obj]["Status"] == old(gfield[obj]["Status"])
+
+// The strategy objects carry the flags they were asked for (the main-resource strategy of a kind with a status
+// subresource must keep the stored status; the flag decides that).
+//@ func NewDefaultRESTStrategy props C20
+//@   pure
+//@   ensures [flags] result.namespaced == namespaced && result.subStatus == subStatus
+
+//@ func NewDefaultStatusRESTStrategy props C20
+//@   pure
+//@   ensures [flags] typeis(result.RESTCreateUpdateStrategy, "DefaultRESTStrategy") && unbox(result.RESTCreateUpdateStrategy, "DefaultRESTStrategy").namespaced == namespaced && unbox(result.RESTCreateUpdateStrategy, "DefaultRESTStrategy").subStatus
